@@ -333,6 +333,13 @@ func (vc *VC) instantiatedQuery(mark int, goal Term, sliced bool, lean bool) (st
 		asserts = vc.asserts[:mark]
 	}
 	dropped := map[int]bool{}
+	// 2a. trigger-based instances of the engine's own frame / typing axioms
+	// (forall ((v Int)) (! body :pattern ((select ARR v)))): instantiate at every ground index
+	// term t for which (select ARR t) occurs in the query, closing over the arrays the body
+	// relates (frame chains H!e3 -> H!e2 -> ...). These are consequences of the hypotheses, so
+	// adding them is sound; they make the ground stage (quantified hypotheses dropped) complete
+	// enough for goals that depend on frames.
+	extra = append(extra, vc.triggerInstances(asserts, g)...)
 	for ai, a := range asserts {
 		if !strings.Contains(a, "(forall") || total > limit {
 			continue
@@ -465,6 +472,7 @@ func (vc *VC) instantiatedQuery(mark int, goal Term, sliced bool, lean bool) (st
 							}
 						}
 					}
+					add(atomSx("0"))
 					for _, t := range plainSeeds {
 						if !strings.HasPrefix(t.String(), "sk!") {
 							add(t)
@@ -565,4 +573,173 @@ func positiveExists(n *sx, pos bool, out *[]*sx) {
 			positiveExists(n.kids[3], pos, out)
 		}
 	}
+}
+
+
+// collectGroundSelects records, for every array atom A, the ground index terms t of the
+// sub-terms (select A t) of n (terms mentioning a bound variable are skipped).
+func collectGroundSelects(n *sx, bound map[string]bool, out map[string]map[string]*sx) {
+	if n == nil || n.kids == nil {
+		return
+	}
+	h := n.head()
+	if h == "forall" || h == "exists" {
+		nb := map[string]bool{}
+		for k, v := range bound {
+			nb[k] = v
+		}
+		for _, b := range n.kids[1].kids {
+			nb[b.kids[0].atom] = true
+		}
+		for _, k := range n.kids[2:] {
+			collectGroundSelects(k, nb, out)
+		}
+		return
+	}
+	if h == "select" && len(n.kids) == 3 && n.kids[1].kids == nil {
+		idx := n.kids[2]
+		if !mentionsBound(idx, bound) {
+			s := idx.String()
+			if len(s) <= 400 {
+				a := n.kids[1].atom
+				if out[a] == nil {
+					out[a] = map[string]*sx{}
+				}
+				out[a][s] = idx
+			}
+		}
+	}
+	for _, k := range n.kids {
+		collectGroundSelects(k, bound, out)
+	}
+}
+
+func mentionsBound(n *sx, bound map[string]bool) bool {
+	if n == nil {
+		return false
+	}
+	if n.kids == nil {
+		return bound[n.atom]
+	}
+	for _, k := range n.kids {
+		if mentionsBound(k, bound) {
+			return true
+		}
+	}
+	return false
+}
+
+type trigQ struct {
+	v      string
+	arr    string
+	body   *sx
+	guard  []*sx // antecedents the quantifier sits under (=> g1 (=> g2 (forall ...)))
+	others []string
+}
+
+// triggerInstances: see the comment at its call site.
+func (vc *VC) triggerInstances(asserts []string, goal *sx) []string {
+	idx := map[string]map[string]*sx{}
+	var qs []*trigQ
+	for _, a := range asserts {
+		if len(a) > 2000000 {
+			continue
+		}
+		n := parseSx(a)
+		collectGroundSelects(n, map[string]bool{}, idx)
+		if !strings.Contains(a, ":pattern") {
+			continue
+		}
+		// peel (=> g body) wrappers
+		var guards []*sx
+		cur := n
+		for cur != nil && cur.head() == "=>" && len(cur.kids) == 3 {
+			guards = append(guards, cur.kids[1])
+			cur = cur.kids[2]
+		}
+		if cur == nil || cur.head() != "forall" || len(cur.kids) < 3 || len(cur.kids[1].kids) != 1 {
+			continue
+		}
+		v := cur.kids[1].kids[0].kids[0].atom
+		if strings.Contains(v, "!q") {
+			continue
+		}
+		inner := cur.kids[2]
+		if inner.head() != "!" || len(inner.kids) < 4 {
+			continue
+		}
+		pat := inner.kids[3]
+		if pat.kids == nil || len(pat.kids) != 1 {
+			continue
+		}
+		pt := pat.kids[0]
+		if pt.head() != "select" || len(pt.kids) != 3 || pt.kids[1].kids != nil || pt.kids[2].kids != nil || pt.kids[2].atom != v {
+			continue
+		}
+		q := &trigQ{v: v, arr: pt.kids[1].atom, body: inner.kids[1], guard: guards}
+		// other arrays selected at v in the body
+		var walk func(m *sx)
+		seen := map[string]bool{q.arr: true}
+		walk = func(m *sx) {
+			if m == nil || m.kids == nil {
+				return
+			}
+			if m.head() == "select" && len(m.kids) == 3 && m.kids[1].kids == nil && m.kids[2].kids == nil && m.kids[2].atom == v {
+				if !seen[m.kids[1].atom] {
+					seen[m.kids[1].atom] = true
+					q.others = append(q.others, m.kids[1].atom)
+				}
+			}
+			for _, k := range m.kids {
+				walk(k)
+			}
+		}
+		walk(q.body)
+		qs = append(qs, q)
+	}
+	collectGroundSelects(goal, map[string]bool{}, idx)
+	// close the index sets over the frame chains
+	for round := 0; round < 10; round++ {
+		changed := false
+		for _, q := range qs {
+			for k, t := range idx[q.arr] {
+				for _, o := range q.others {
+					if idx[o] == nil {
+						idx[o] = map[string]*sx{}
+					}
+					if _, ok := idx[o][k]; !ok && len(idx[o]) < 60 {
+						idx[o][k] = t
+						changed = true
+					}
+				}
+			}
+		}
+		if !changed {
+			break
+		}
+	}
+	var out []string
+	total := 0
+	for _, q := range qs {
+		var keys []string
+		for k := range idx[q.arr] {
+			keys = append(keys, k)
+		}
+		sort.Strings(keys)
+		if len(keys) > 40 {
+			keys = keys[:40]
+		}
+		for _, k := range keys {
+			if total > 3000 {
+				return out
+			}
+			inst := q.body.subst(map[string]*sx{q.v: idx[q.arr][k]})
+			for i := len(q.guard) - 1; i >= 0; i-- {
+				inst = &sx{kids: []*sx{atomSx("=>"), q.guard[i], inst}}
+			}
+			out = append(out, inst.String())
+			total++
+		}
+	}
+	return out
 }
